@@ -10,8 +10,8 @@ CONSTANTS
   MaxPay = 1
   Cap = 2
   MaxNest = 1
-  Ops = {"CtxDeregister", "DropRef", "Dispatch", "CtxQuit", "ModStop", "ModStart", "Tell", "Become", "Unbecome", "Unstash"}
-  CbOps = {"Become", "Unbecome", "Stash"}
+  Ops = {"CtxDeregister", "DropRef", "Dispatch", "CtxQuit", "ModStop", "ModStart", "ModPause", "ModResume", "Tell", "Become", "Unbecome", "Unstash"}
+  CbOps = {"Become", "Unbecome", "Stash", "ModStop"}
   EvalVals = {TRUE}
   Prios = {"N"}
   BatchSizes = {}
@@ -27,8 +27,12 @@ CONSTANTS
   TickVals = {}
   Targets = {"A"}
   AutoVals = {TRUE, FALSE}
+  SubOneshot = {FALSE}
   Senders = {"B"}
   QuitCodes = {1}
+  ForeignOps = {}
+  MaxRefs = 1
+  MaxHeld = 0
   Setup = "loop2"
 INIT Init
 NEXT Next
